@@ -27,24 +27,17 @@ Variable halfpi : K.
 Variable gauss_id : nat.
 Variable bk : backend (K:=K) B.
 
-Lemma main_program_as_implemented p b ds :
-  run F B halfpi gauss_id c' bk (map (rescale F lam) p) b ds
-  = (fst (run F B halfpi gauss_id c bk p b ds),
-     map (scale_outcome_impl F lam) (snd (run F B halfpi gauss_id c bk p b ds))).
-Proof. use run_rescale. Qed.
-
 Lemma main_program p b ds :
-  forallb (fun o => negb (is_ms o)) p = true ->
   run F B halfpi gauss_id c' bk (map (rescale F lam) p) b ds
   = (fst (run F B halfpi gauss_id c bk p b ds),
      map (scale_outcome F lam) (snd (run F B halfpi gauss_id c bk p b ds))).
-Proof. use run_rescale_no_ms. Qed.
+Proof. use run_rescale. Qed.
 
 Lemma main_means_scale (bk_means : B -> list K) p b ds :
   state_means F c' (bk_means (fst (run F B halfpi gauss_id c' bk (map (rescale F lam) p) b ds)))
   = map (fun v => fmul F lam v) (state_means F c (bk_means (fst (run F B halfpi gauss_id c bk p b ds)))).
 Proof.
-  rewrite main_program_as_implemented. cbn [fst].
+  rewrite main_program. cbn [fst].
   use state_means_scaled.
 Qed.
 
@@ -53,7 +46,7 @@ Lemma main_cov_scale (bk_cov : B -> list (list K)) p b ds :
   = map (map (fun v => fmul F (fdiv F (hb c') (hb c)) v))
         (state_cov F c (bk_cov (fst (run F B halfpi gauss_id c bk p b ds)))).
 Proof.
-  rewrite main_program_as_implemented. cbn [fst].
+  rewrite main_program. cbn [fst].
   use state_cov_scaled.
 Qed.
 End Prog.
@@ -88,7 +81,7 @@ Proof.
   split; [use bos_mean_photon_invariant|]. intro Hd. use bos_fid_prefsq_invariant.
 Qed.
 
-Lemma main_parity_full N numsq detcov :
+Lemma main_parity N numsq detcov :
   detcov <> f0 F ->
   parity_sq F c' N numsq (kpow F (lam * lam) (2 * N) * detcov) = parity_sq F c N numsq detcov.
 Proof. use parity_sq_invariant. Qed.
@@ -135,6 +128,10 @@ Proof.
   use gauss_r_scaled.
 Qed.
 End M.
+
+Lemma main_is_coherent_store_unchanged {K : Type} (c : hctx K) (cov : list (list K)) :
+  is_coherent_1mode_store c cov = cov.
+Proof. reflexivity. Qed.
 
 Section One.
 Context {K : Type} (F : Fld K).
